@@ -565,6 +565,7 @@ EXTENSION_OPS_WITH_SIDE_EFFECTS: list[str] = [
     # Qubit allocation and deallocation have the side-effect of changing the number of
     # available free qubits
     QUANTUM_EXTENSION.get_op("QAlloc").qualified_name(),
+    QUANTUM_EXTENSION.get_op("TryQAlloc").qualified_name(),
     QUANTUM_EXTENSION.get_op("QFree").qualified_name(),
     QUANTUM_EXTENSION.get_op("MeasureFree").qualified_name(),
 ]
